@@ -636,7 +636,7 @@ def gen_case(ctx):
         if f in ('sqrt', 'log') and rng.random() < 0.5:
             lo, hi = (-0.8, 2.0)      # negative arguments -> NaN -> undefined
         return {'kind': 'func', 'a': gen_corr(rng, lo=lo, hi=hi), 'f': f}
-    m = rng.choice(['roll', 'roll', 'reverse', 'thin', 'symmetric', 'anti_symmetric', 'T_symmetry', 'item', 'trace', 'matrix_symmetric', 'projected', 'projected', 'projected', 'hankel', 'hankel', 'repr', 'ctor', 'real', 'imag', 'getitem'])
+    m = rng.choice(['roll', 'roll', 'reverse', 'thin', 'symmetric', 'anti_symmetric', 'T_symmetry', 'item', 'trace', 'matrix_symmetric', 'matrix_symmetric', 'matrix_symmetric', 'projected', 'projected', 'projected', 'hankel', 'hankel', 'repr', 'ctor', 'real', 'imag', 'getitem'])
     if m in ('real', 'imag'):
         cp = rng.random() < 0.6
         a = gen_corr(rng, cplx=cp)
